@@ -63,6 +63,116 @@ def record(sc):
     return tr
 
 
+def record_session(sc):
+    """Several batches of ONE BatchHandler / ComputationContext (shared executor cache): per batch another set of nodes is
+    supplied - through an output pool that holds the batch for some of its stores (mode pool, what generate(with_values=)
+    and reused pools do) or as overriding values of the batch (mode override, what SMC / BOLFI do through
+    prepare_new_batch).  Each batch is a trace of its own with the outputs it effectively requested."""
+    import elfi
+    import elfi.client
+    from elfi.model.elfi_model import ComputationContext
+    from harness import symgraph
+    from harness.symgraph import Sym
+    g = sc
+    rec = Recorder(sc.get("bs", 3))
+    traces = []
+    ses = sc["session"]
+    names = {out_name(o): o for o in g["outs"]}
+    try:
+        m = build_model(g, rec, order=sc.get("order"))
+        pool = elfi.OutputPool(list(ses["stores"])) if ses["mode"] == "pool" else None
+        cctx = ComputationContext(batch_size=rec.bs, seed=sc.get("seed", 1), pool=pool)
+        bh = elfi.client.BatchHandler(m, cctx, output_names=[out_name(o) for o in g["outs"]], client=elfi.client.get_client())
+        err = None
+    except Exception as ex:          # the graph itself is refused (e.g. stochastic observed data): judged by its plain scenario
+        return []
+    for bi, wv in enumerate(ses["steps"]):
+        rec.counts.clear()
+        symgraph.EXPECT_BI[0] = bi
+        tr = dict(nodes=g["nodes"], kind=g["kind"], pos=g["pos"], named=g["named"], obs=g["obs"], meta=g["meta"],
+                  outs=g["outs"], wv=list(wv), raised="", result=[], counts={}, step=bi)
+        try:
+            with time_limit(180):
+                vals = {x: Sym(["wv", x]) for x in wv}
+                if ses["mode"] == "pool":
+                    pool.add_batch(vals, bi)
+                    res = bh.compute(bi)
+                else:
+                    bh.submit(vals)
+                    res, _bi = bh.wait_next()
+                eff = [names.get(k, ["n", k]) for k in sorted(res)]
+                tr["outs"] = eff
+                tr["result"] = [term(res[out_name(o)]) for o in eff]
+        except Hang:
+            tr["raised"] = "Hang"
+        except Exception as ex:
+            tr["raised"] = type(ex).__name__
+            tr["exc"] = str(ex)[:200]
+        finally:
+            symgraph.EXPECT_BI[0] = 0
+        if tr["raised"]:
+            tr["result"] = [["-"] for _ in tr["outs"]]
+        tr["counts"] = {x: rec.counts.get(x, 0) for x in g["nodes"]}
+        traces.append(tr)
+        if tr["raised"]:
+            break
+    return traces
+
+
+def session_graph(rnd):
+    """random graph + a session of 2-4 batches over it; supplied nodes are requested outputs or pool stores (as elfi's own
+    samplers and pools supply them), never observed-data dependent rejections"""
+    for _ in range(50):
+        g = random_graph(rnd, rnd.randint(4, 8))
+        g["obs"] = []                       # no observed twins: sessions are about supplied values x cached order
+        g["outs"] = [o for o in g["outs"] if o[0] == "n"] or [["n", g["nodes"][-1]]]
+        nonconst = [x for x in g["nodes"] if g["kind"][x] != "const"]
+        if len(nonconst) < 3:
+            continue
+        mode = rnd.choice(["pool", "override"])
+        if mode == "pool":
+            stores = rnd.sample(nonconst, rnd.randint(1, min(3, len(nonconst))))
+            cand = stores
+        else:
+            stores = []
+            cand = [o[1] for o in g["outs"] if g["kind"][o[1]] != "const"]
+            if not cand:
+                continue
+        steps = [sorted(x for x in cand if rnd.random() < p) for p in rnd.sample([0.0, 0.5, 1.0, 0.5], rnd.randint(2, 4))]
+        g["wv"] = []
+        g["session"] = dict(mode=mode, stores=stores, steps=steps)
+        return g
+    return None
+
+
+def wide_graph(rnd):
+    """one node with 11-15 positional parents (declared order unrelated to names), some named ones"""
+    k = rnd.randint(11, 15)
+    parents = ["p%02d" % i for i in range(k)]
+    rnd.shuffle(parents)
+    kind = {p: rnd.choice(["const", "prior", "const"]) for p in parents}
+    pos = {p: [] for p in parents}
+    named = {p: [] for p in parents}
+    top = "w"
+    kind[top] = rnd.choice(["op", "sim"])
+    extra = []
+    if rnd.random() < 0.5:
+        kind["q"] = "const"
+        pos["q"], named["q"] = [], []
+        extra = ["q"]
+    pos[top] = list(parents)
+    named[top] = [["ka", "q"]] if extra else []
+    nodes = sorted(parents) + extra + [top]
+    outs = [["n", top]]
+    if kind[top] == "sim" and rnd.random() < 0.5:
+        kind["s"] = "sum"
+        pos["s"], named["s"] = [top], []
+        nodes.append("s")
+        outs = [["n", "s"]]
+    return dict(nodes=nodes, kind=kind, pos=pos, named=named, obs=[], meta=[], meta_false=[], outs=outs, wv=[], implicit=[],
+                bs=rnd.choice([1, 3]), seed=rnd.randint(0, 10 ** 6))
+
+
 KINDS = ["const", "op", "prior", "sim", "sum", "disc"]
 
 
@@ -156,12 +266,42 @@ def scenarios(ctx):
     for _ in range(n_rand):
         g = random_graph(rnd, rnd.randint(3, 8))
         out.append(g)
+    for _ in range(40 if ctx.quick else 400):
+        out.append(wide_graph(rnd))
+    for _ in range(300 if ctx.quick else 3000):
+        g = session_graph(rnd)
+        if g is not None:
+            out.append(g)
     return out, n_emitted
 
 
+def check_sessions(ctx, scs):
+    owner, traces = [], []
+    for sc in scs:
+        for tr in record_session(sc):
+            owner.append(sc)
+            traces.append(tr)
+    verdicts = ctx.validate("Compile_Trace", traces, chunk=700, timeout=1500, name="sessions") if traces else []
+    seen = set()
+    for sc, tr, v in zip(owner, traces, verdicts):
+        key = json.dumps([sc["kind"], sc["pos"], sc["named"], sc["outs"], sc["session"], tr["step"]], sort_keys=True)
+        ctx.case(key, nontrivial=tr["step"] > 0)
+        if v["verdict"] != "ok" and id(sc) not in seen:
+            seen.add(id(sc))
+            ctx.fail(v["verdict"], sc, detail=dict(step=tr["step"], supplied=tr["wv"], outs=tr["outs"], raised=tr["raised"], exc=tr.get("exc"),
+                                                   result=tr["result"], counts=tr["counts"]),
+                     finding="F20" if has_duplicate_parent(sc) else None)
+        elif v["verdict"] == "ok" and v["drift"]:
+            ctx.drifted(v["drift"], sc, detail=dict(step=tr["step"], raised=tr["raised"], exc=tr.get("exc")))
+
+
 def check_scenarios(ctx, scs):
+    ses = [sc for sc in scs if "session" in sc]
+    scs = [sc for sc in scs if "session" not in sc]
+    if ses:
+        check_sessions(ctx, ses)
     traces = [record(sc) for sc in scs]
-    verdicts = ctx.validate("Compile_Trace", traces, chunk=700, timeout=1500)
+    verdicts = ctx.validate("Compile_Trace", traces, chunk=700, timeout=1500) if traces else []
     for sc, tr, v in zip(scs, traces, verdicts):
         key = json.dumps([sc["kind"], sc["pos"], sc["named"], sc["obs"], sc["meta"], sc["outs"], sc["wv"]], sort_keys=True)
         nontrivial = len([x for x in sc["nodes"] if sc["kind"][x] != "const"]) >= 2
@@ -180,7 +320,9 @@ def run(ctx):
                 "3-node graphs with fan-in <= 2; sampled in the quick tier) plus seeded random 3-8 node ELFI-shaped DAGs (random fan-in/out, "
                 "mixed positional and named edges, shared and implicit constants, partial observations, requested subsets incl. observed twins, "
                 "with_values subsets, name order unrelated to topological order); each built through elfi.Constant/Operation/Prior/Simulator/"
-                "Summary/Discrepancy with symbolic operations and run with model.generate.  Non-trivial = at least two non-constant nodes.")
+                "Summary/Discrepancy with symbolic operations and run with model.generate; nodes with 11-15 positional parents; sessions of 2-4 batches "
+                "over ONE BatchHandler/context (shared executor cache) in which another subset of pool stores / requested outputs is supplied per batch.  "
+                "Non-trivial = at least two non-constant nodes (sessions: a batch after the first).")
     ctx.clauses_decided = ["a: value = operation applied to parents (positional order, named by name)", "b: batch_size / generator / meta exactly to declaring nodes",
                            "c: observed twin", "d: discrepancy receives the tuple of observed twins", "e: rejection of stochastic observed data",
                            "f: needed operations once, others never"]
@@ -192,9 +334,10 @@ def run(ctx):
         ctx.tlc("MC_Compile", "MC_Compile_N3_wv", cfg_text=mc_cfg("N3", 2, False, True, False, True, INV), expect_actions=["Pick"], timeout=2400)
     scs, n_emitted = scenarios(ctx)
     traces = check_scenarios(ctx, scs)
-    ctx.notes.append("%d TLC-emitted graphs, %d random graphs" % (n_emitted, len(scs) - n_emitted - 1))
-    for i in (1, n_emitted // 2, n_emitted + 5, len(scs) - 1):
-        ctx.sample(dict(graph={k: scs[i][k] for k in ("nodes", "kind", "pos", "named", "obs", "meta", "outs", "wv")},
+    plain = [sc for sc in scs if "session" not in sc]
+    ctx.notes.append("%d TLC-emitted graphs, %d random / wide graphs, %d multi-batch sessions" % (n_emitted, len(plain) - n_emitted - 1, len(scs) - len(plain)))
+    for i in (1, n_emitted // 2, n_emitted + 5, len(plain) - 1):
+        ctx.sample(dict(graph={k: plain[i][k] for k in ("nodes", "kind", "pos", "named", "obs", "meta", "outs", "wv")},
                         raised=traces[i]["raised"], result=traces[i]["result"][:2], counts=traces[i]["counts"]))
 
 
